@@ -154,6 +154,9 @@ def run(ctx):
             ctx.count("targets:%s" % t["cls"])
             if t["nverts"] >= 2 or t["cls"] == "exterior":
                 ctx.nontrivial.add((repr(st["sys"]), tuple(t["b"])))
+    # code -> spec: recorded calls on random lattice systems outside the curated families, recomputed by TLC
+    from .. import sysdriver
+    sysdriver.run_trace(ctx, "range", "C06", 16, 40 if thorough else 12)
     ctx.traces += len(sts)
     ctx.extra.update(tot)
     ctx.extra["spaced_n"] = ns
